@@ -104,30 +104,51 @@ def eval_template(case):
                if year == 2003 and tzenv is None else None)
 
 
-def info_for_year(year):
-    """parserinfo built under a fake clock (seam: dateutil.parser._parser.time)"""
-    import dateutil.parser._parser as P
-    real = P.time
-    if year is None:
-        return P.parserinfo()
-    if not hasattr(real, 'localtime'):
-        raise HarnessError("dateutil.parser._parser.time seam not found")
+class fake_clock(object):
+    """parser clock seam: dateutil.parser._parser.time answers localtime() with the given year while the block runs
+    (both while a parserinfo is built and while it is used - a tree may read the clock at either moment)"""
 
-    class Clock(object):
-        def __getattr__(self, name):
-            return getattr(real, name)
+    def __init__(self, year):
+        self.year = year
 
-        def localtime(self, *a):
-            lt = real.localtime(*a)
-            return types.SimpleNamespace(tm_year=year, tm_mon=lt.tm_mon, tm_mday=lt.tm_mday)
-    P.time = Clock()
-    try:
-        info = P.parserinfo()
-    finally:
-        P.time = real
-    if getattr(info, '_year', year) != year:
-        raise HarnessError("parser clock seam did not bind")
-    return info
+    def __enter__(self):
+        import dateutil.parser._parser as P
+        self.P = P
+        self.real = getattr(P, 'time', None)
+        if self.year is None or self.real is None or not hasattr(self.real, 'localtime'):
+            self.real = None
+            return self
+        real, year = self.real, self.year
+
+        class Clock(object):
+            def __getattr__(self, name):
+                return getattr(real, name)
+
+            def localtime(self, *a):
+                lt = real.localtime(*a)
+                return types.SimpleNamespace(tm_year=year, tm_mon=lt.tm_mon, tm_mday=lt.tm_mday)
+        P.time = Clock()
+        return self
+
+    def __exit__(self, *a):
+        if self.real is not None:
+            self.P.time = self.real
+
+
+def clock_seam_binds():
+    """does the pivot follow the fake clock?  '50' is 2050 seen from 2049 and 1950 seen from any year before 2000 or
+    after 2000 that is not within 50 years before 2050; decided by behaviour, not by private attributes"""
+    from dateutil import parser
+    import time as _time
+    real_year = _time.localtime().tm_year
+    if abs(real_year - 2049) < 3:
+        return True              # cannot tell the two apart; assume bound (the oracle then uses the fake year)
+    with fake_clock(2049):
+        try:
+            got = parser.parser(parser.parserinfo(yearfirst=True)).parse('50-03-04', default=DEFAULT).year
+        except Exception:
+            return False
+    return got == 2050
 
 
 def eval_two_digit(case):
@@ -136,31 +157,30 @@ def eval_two_digit(case):
     warnings.simplefilter('ignore')
     name, clock = case
     f, kw = R.T2[name]
-    info = info_for_year(clock)
+    if clock is not None and not clock_seam_binds():
+        # this tree does not read the year through the seam: only the real clock can be examined
+        return Res(outcome='clock-seam-not-bound', nontrivial=False, extra={'clock_seam_not_bound': 1})
     current = clock if clock is not None else _time.localtime().tm_year
     viols = []
     n = 0
-    for yy in range(100):
-        for (m, d) in ((3, 4), (11, 12), (12, 31), (1, 1)):
-            n += 1
-            ey = R.expected_two_digit_year(yy, current)
-            if not 1 <= ey <= 9999:
-                continue
-            # dayfirst/yearfirst flags travel in a parserinfo built under the same clock
-            import dateutil.parser._parser as P
-            inf = info
-            inf.dayfirst = bool(kw.get('dayfirst'))
-            inf.yearfirst = bool(kw.get('yearfirst'))
-            text = f(D.date(2000 + yy if yy else 2000, m, d).replace(year=1900 + yy if yy else 2000))
-            try:
-                got = parser.parser(inf).parse(text, default=DEFAULT)
-            except Exception as e:
-                viols.append({'kind': 'valid-rendering-rejected', 'template': name, 'text': text, 'clock': current,
-                              'error': repr(e)[:100]})
-                continue
-            if (got.year, got.month, got.day) != (ey, m, d):
-                viols.append({'kind': 'two-digit-year-wrong', 'template': name, 'text': text, 'clock': current,
-                              'got': got, 'expected_year': ey})
+    with fake_clock(clock):
+        info = parser.parserinfo(dayfirst=bool(kw.get('dayfirst')), yearfirst=bool(kw.get('yearfirst')))
+        for yy in range(100):
+            for (m, d) in ((3, 4), (11, 12), (12, 31), (1, 1)):
+                n += 1
+                ey = R.expected_two_digit_year(yy, current)
+                if not 1 <= ey <= 9999:
+                    continue
+                text = f(D.date(2000 + yy if yy else 2000, m, d).replace(year=1900 + yy if yy else 2000))
+                try:
+                    got = parser.parser(info).parse(text, default=DEFAULT)
+                except Exception as e:
+                    viols.append({'kind': 'valid-rendering-rejected', 'template': name, 'text': text, 'clock': current,
+                                  'error': repr(e)[:100]})
+                    continue
+                if (got.year, got.month, got.day) != (ey, m, d):
+                    viols.append({'kind': 'two-digit-year-wrong', 'template': name, 'text': text, 'clock': current,
+                                  'got': got, 'expected_year': ey})
     return Res(trans=n, viols=viols[:4], sample={'template': name, 'clock': current, 'example': f(D.date(1999, 3, 4))})
 
 
@@ -194,5 +214,5 @@ def run(ctx):
                 'x 6 templates x 6 clocks; transitions = strings parsed',
     })
     ctx.assumptions += ['refs/parse_render.py renderer is the inverse tested against',
-                        'parser clock seam: dateutil.parser._parser.time proxy while a parserinfo is built (bind asserted)',
+                        'parser clock seam: dateutil.parser._parser.time proxy while a parserinfo is built and used (bound iff the pivot follows it; otherwise only the real clock is examined)',
                         'process zone seam: TZ + tzset']
